@@ -175,6 +175,34 @@ def parse_san_logs(paths):
     return out
 
 
+def parse_vg_logs(paths):
+    """valgrind memcheck logs -> (key, excerpt)"""
+    out = []
+    for p in paths:
+        try:
+            lines = open(p, errors='replace').read().split('\n')
+        except OSError:
+            continue
+        i = 0
+        while i < len(lines):
+            m = re.match(r'==\d+== (Conditional jump or move depends on uninitialised value|Use of uninitialised value|Invalid read|Invalid write|Invalid free|Mismatched free|Source and destination overlap|Syscall param .* uninitialised|Jump to the invalid address|Process terminating with default action of signal \d+)', lines[i])
+            if m:
+                blk = [lines[i]]; j = i + 1
+                while j < len(lines) and re.match(r'==\d+==\s+(at|by) ', lines[j]):
+                    blk.append(lines[j]); j += 1
+                fn = 'unknown'
+                for ln in blk[1:]:
+                    mm = re.match(r'==\d+==\s+(?:at|by) 0x[0-9A-F]+: (\S+) \((\S+?):\d+\)', ln)
+                    if mm and (mm.group(2).startswith('q') or mm.group(2) in ('md5c.c',)) and not mm.group(1).startswith('vf_'):
+                        fn = mm.group(1); break
+                cls = re.sub(r'[^a-z]+', '-', m.group(1).lower())[:40]
+                if fn != 'unknown' or 'Process terminating' in m.group(1):
+                    out.append(('vg:%s:%s' % (cls, fn), '\n'.join(blk[:30])))
+                i = j; continue
+            i += 1
+    return out
+
+
 def ubsan_class(msg):
     for pat, c in [('misaligned', 'misaligned'), ('null pointer', 'null'), ('signed integer overflow', 'signed-overflow'),
                    ('shift', 'shift'), ('out of bounds', 'bounds'), ('pointer overflow', 'pointer-overflow'),
@@ -295,7 +323,7 @@ def run_shard(exe, job, prop, tier, seed, shard, odir, rdir):
     while True:
         cmd = base + (['--start-case', str(start_case)] if start_case else [])
         if job.runner:
-            cmd = job.runner + cmd
+            cmd = [a.replace('{out}', out) for a in job.runner] + cmd
         try:
             with open(out + '.stdout', 'ab') as so:
                 p = subprocess.run(cmd, stdout=so, stderr=subprocess.STDOUT, env=env, timeout=timeout, cwd=odir)
@@ -349,6 +377,9 @@ def collect(outs, res):
         logs = glob.glob(out + '.san.*') + ([out + '.stdout'] if os.path.exists(out + '.stdout') else [])
         for key, exc in parse_san_logs(logs):
             res.san.append((key, exc, logs[0] if logs else ''))
+        vlogs = glob.glob(out + '.vg.*')
+        for key, exc in parse_vg_logs(vlogs):
+            res.san.append((key, exc, vlogs[0]))
 
 
 def execute(prop, tier, seed, jobs, bdir, rdir):
@@ -392,7 +423,7 @@ def do_check(prop, tier, seed):
     bdir = os.path.join(VERIF, '.build', '%s-%d' % (prop, os.getpid()))
     rdir = os.path.join(VERIF, 'replays')
     os.makedirs(bdir, exist_ok=True); os.makedirs(rdir, exist_ok=True)
-    evpath = os.path.join(VERIF, 'evidence', prop + '.json')
+    evpath = os.path.join(os.environ.get('VF_EVIDENCE_DIR', os.path.join(VERIF, 'evidence')), prop + '.json')
     rc = 2
     try:
         if 'pre' in spec:
@@ -470,7 +501,7 @@ def verdict(prop, spec, res, tier, seed, t0, evpath, rdir):
         cov['maxima'] = dict(sorted(res.maxes.items()))
     cov['distinct_sets'] = {k: len(v) for k, v in sorted(res.dist.items())}
     cov['processes'] = res.procs
-    cov['sanitizer_reports'] = {'counted': sorted(set(k for k in vio if ':asan:' in k or ':ubsan:' in k or ':tsan:' in k or ':lsan:' in k)),
+    cov['sanitizer_reports'] = {'counted': sorted(set(k for k in vio if ':asan:' in k or ':ubsan:' in k or ':tsan:' in k or ':lsan:' in k or ':vg:' in k)),
                                 'outside_this_property': ignored_san}
     cov['known_findings_observed'] = [k for (k, _, _, _) in known_hits]
     incon = list(res.inconclusive)
